@@ -6,7 +6,7 @@ id=$1; tier=${2:-quick}; prop=${3:-${id%%-*}}
 d=/tmp/try-repo-$id-$$
 rm -rf $d; mkdir -p $d
 rsync -a --exclude .git --exclude '*.o' --exclude '*.lo' --exclude '.libs' --exclude '*.la' --exclude '*.a' /repo/include /repo/lib $d/
-mkdir -p $d/tests; cp /repo/tests/upipe_h264_framer_test.h $d/tests/ 2>/dev/null
+mkdir -p $d/tests; cp /repo/tests/*.c /repo/tests/*.h $d/tests/ 2>/dev/null
 ( cd $d && patch -p1 -s < /verif/seeded/$id/patch.diff ) || { echo "patch does not apply"; rm -rf $d; exit 2; }
 out=/tmp/try-$id-$prop.out
 mkdir -p /tmp/try-evidence-$$
